@@ -61,7 +61,7 @@ PROPS = {
         'extra': ['twin'],
     },
     'C02': {
-        'theorems': 'Properties/C02', 'scenarios': ['flow-timeout-giveup', 'flow-rollover-coincide', 'flow-renew2-migrate', 'flow-fault-not-held'], 'obligation_files': ['Obligations/ObShape'],
+        'theorems': 'Properties/C02', 'scenarios': ['flow-timeout-giveup', 'flow-rollover-coincide', 'flow-renew2-migrate', 'flow-fault-not-held', 'flow-renew-migrate-expire'], 'obligation_files': ['Obligations/ObShape'],
         'profiles': [SAO, SAOLONG, NODE, SELECT, STAKING],
         'projection': ['outcome-class'], 'monitors': ['live.'], 'families': ALL_FAM,
         'halt_is_violation': True, 'crash_is_witness': True,
@@ -73,7 +73,7 @@ PROPS = {
         'projection': ['proc.sharesBeforeModified', 'node.Node#5', 'node.Node#6'], 'monitors': ['proc.', 'twin.'], 'families': ['staking', 'node', 'block'],
     },
     'C04': {
-        'theorems': 'Properties/C04', 'scenarios': ['flow-debt-claim', 'flow-renew2-migrate', 'flow-timeout-giveup', 'flow-debt-release', 'flow-rollover-coincide', 'flow-sponsor-rollback', 'flow-short-renewal'], 'obligation_files': ['Obligations/ObShape'],
+        'theorems': 'Properties/C04', 'scenarios': ['flow-debt-claim', 'flow-renew2-migrate', 'flow-timeout-giveup', 'flow-debt-release', 'flow-rollover-coincide', 'flow-sponsor-rollback', 'flow-short-renewal', 'flow-renew-migrate-expire'], 'obligation_files': ['Obligations/ObShape'],
         'profiles': [SAO, SAOLONG],
         'projection': ['bank.Balance', 'market.Worker', 'order.Order#8', 'order.Order#6', 'order.Order#5'],
         'monitors': ['solv.market', 'solv.order', 'cons.', 'frame.supply'], 'families': ['sao', 'block', 'node'],
@@ -115,14 +115,14 @@ PROPS = {
         'monitors': ['authz.complete', 'authz.cancel', 'authz.payer', 'frame.node_msgs', 'did.did_has_acc', 'did.list_sound', 'did.list_complete'], 'families': ['sao', 'node', 'did'],
     },
     'C11': {
-        'theorems': 'Properties/C11', 'scenarios': ['flow-renew2-migrate', 'flow-rollover-coincide', 'flow-short-renewal', 'flow-renewed-versions'], 'obligation_files': ['Obligations/ObShape', 'Proofs/Refinement'],
+        'theorems': 'Properties/C11', 'scenarios': ['flow-renew2-migrate', 'flow-rollover-coincide', 'flow-short-renewal', 'flow-renewed-versions', 'flow-renew-migrate-expire'], 'obligation_files': ['Obligations/ObShape', 'Proofs/Refinement'],
         'profiles': [SAOLONG, SAO],
-        'projection': ['order.Shard+keys', 'order.Shard#7', 'order.Shard#8', 'order.Shard#9', 'order.Order+keys', 'model.Metadata+keys', 'model.Metadata#11',
+        'projection': ['order.Shard+keys', 'order.Shard#0', 'order.Shard#7', 'order.Shard#8', 'order.Shard#9', 'order.Order+keys', 'model.Metadata+keys', 'model.Metadata#11',
                        'sao.ExpiredShard', 'model.ExpiredData', 'node.Pledge#5', 'node.Pledge#1', 'market.Worker'],
         'monitors': ['ref.completed_scheduled', 'sched.meta_scheduled', 'sched.expdata_live', 'sched.meta_covers_shards', 'sched.meta_covers_renewals', 'sched.meta_expiry_is_shard_end', 'sched.future'], 'families': ['block', 'sao'],
     },
     'C12': {
-        'theorems': 'Properties/C12', 'scenarios': ['flow-timeout-giveup', 'flow-late-ready'], 'obligation_files': ['Obligations/ObShape'],
+        'theorems': 'Properties/C12', 'scenarios': ['flow-timeout-giveup', 'flow-late-ready', 'flow-silent-super'], 'obligation_files': ['Obligations/ObShape'],
         'profiles': [SAO, SAOLONG],
         'projection': ['order.Order#5', 'order.Order#6', 'order.Order#7', 'order.Order#8', 'order.Order+keys', 'sao.TimeoutOrder', 'order.Shard#1'],
         'monitors': ['sched.timeout_scheduled', 'sched.long_timeout_scheduled', 'sched.timeouts_future', 'sel.order_sps_distinct'], 'families': ['block', 'sao'],
@@ -135,14 +135,14 @@ PROPS = {
         'monitors': ['ref.'], 'families': ['sao', 'block'],
     },
     'C14': {
-        'theorems': 'Properties/C14', 'scenarios': ['flow-debt-claim', 'flow-renew2-migrate', 'flow-debt-release', 'flow-rollover-coincide', 'flow-short-renewal', 'flow-renew-many-poor', 'flow-capacity-edge'], 'obligation_files': ['Proofs/Refinement'],
+        'theorems': 'Properties/C14', 'scenarios': ['flow-debt-claim', 'flow-renew2-migrate', 'flow-debt-release', 'flow-rollover-coincide', 'flow-short-renewal', 'flow-renew-many-poor', 'flow-capacity-edge', 'flow-renew-migrate-expire'], 'obligation_files': ['Proofs/Refinement'],
         'profiles': [SAO, SAOLONG, NODE],
         'projection': ['node.Pledge#0', 'node.Pledge#1', 'node.Pledge#4', 'node.Pledge#5', 'market.Worker#0', 'market.Worker#2', 'node.Pool#0', 'node.Pool#6',
                        'order.Shard#2', 'order.Shard#4'],
         'monitors': ['agg.'], 'families': ['sao', 'block', 'node'],
     },
     'C15': {
-        'theorems': 'Properties/C15', 'scenarios': ['flow-timeout-giveup', 'flow-renew2-migrate'], 'obligation_files': ['Obligations/ObShape'],
+        'theorems': 'Properties/C15', 'scenarios': ['flow-timeout-giveup', 'flow-renew2-migrate', 'flow-silent-super'], 'obligation_files': ['Obligations/ObShape'],
         'profiles': [SELECT, SAO],
         'projection': ['select', 'node.NodeRound', 'order.Shard#6', 'order.Shard+keys'],
         'monitors': ['sel.'], 'families': ['select', 'sao', 'block'], 'crash_is_witness': True,
